@@ -80,6 +80,7 @@ type c21Reply struct {
 	status int
 	loc    string
 	keep   bool
+	fail   bool // read the request, then close the connection without answering
 }
 
 type c21Net struct {
@@ -266,6 +267,9 @@ func (n *c21Net) serve(rec *c21ConnRec, raw net.Conn) {
 		if !ok {
 			rp = c21Reply{status: 200, keep: true}
 		}
+		if rp.fail {
+			return
+		}
 		var b bytes.Buffer
 		fmt.Fprintf(&b, "HTTP/1.1 %d S\r\n", rp.status)
 		if rp.loc != "" {
@@ -300,6 +304,14 @@ type c21Hop struct {
 	url  string // scheme://host (no path)
 	keep bool
 	path string
+	// later attempts of the same HostClient.Do call: the attempt before each of them is answered by closing the
+	// connection (a retriable failure) and the retry hook rewrites the request to this URL
+	retries []c21Hop
+}
+
+// attempts of a hop in order: the hop itself, then its retries
+func (h *c21Hop) attempts() []c21Hop {
+	return append([]c21Hop{{url: h.url, keep: h.keep, path: h.path}}, h.retries...)
 }
 
 type c21Op struct {
@@ -316,14 +328,22 @@ type c21HCSpec struct {
 // args: cfg ("wt=0|1"), standalone host clients ("addr|tls;addr|tls"), ops ("C url,k > url,k" / "H i url,k > ..." / "L url,k")
 // cfg: "wt=0|1[ I|V|N]": WriteTimeout off/on; TLS config mode: I InsecureSkipVerify, V verification against the test
 // root with the server name derived from the address, N verification with TLSConfig.ServerName set
-func c21Decode(a [][]byte) (wt bool, mode byte, hcs []c21HCSpec, ops []c21Op, ok bool) {
+func c21Decode(a [][]byte) (wt bool, mode, hook byte, hcs []c21HCSpec, ops []c21Op, ok bool) {
 	if len(a) < 2 {
 		return
 	}
-	mode = 'I'
+	mode, hook = 'I', 'E'
 	cf := strings.Fields(string(a[0]))
-	if len(cf) == 0 || len(cf) > 2 {
+	if len(cf) == 0 || len(cf) > 3 {
 		return
+	}
+	if len(cf) == 3 {
+		// which retry hook carries the scripted URL rewrites: E RetryIfErr, F RetryIf
+		if cf[2] != "E" && cf[2] != "F" {
+			return
+		}
+		hook = cf[2][0]
+		cf = cf[:2]
 	}
 	switch cf[0] {
 	case "wt=0":
@@ -370,13 +390,25 @@ func c21Decode(a [][]byte) (wt bool, mode byte, hcs []c21HCSpec, ops []c21Op, ok
 		default:
 			return
 		}
-		for _, h := range strings.Split(rest, " > ") {
-			i := strings.LastIndexByte(h, ',')
-			if i < 0 || (h[i+1:] != "0" && h[i+1:] != "1") || strings.ContainsAny(h[:i], " \r\n") {
+		for _, hs := range strings.Split(rest, " > ") {
+			var hop c21Hop
+			for t, h := range strings.Split(hs, " ! ") {
+				i := strings.LastIndexByte(h, ',')
+				if i < 0 || (h[i+1:] != "0" && h[i+1:] != "1") || strings.ContainsAny(h[:i], " \r\n") {
+					return
+				}
+				n++
+				at := c21Hop{url: h[:i], keep: h[i+1:] == "1", path: fmt.Sprintf("/r%d", n)}
+				if t == 0 {
+					hop = at
+				} else {
+					hop.retries = append(hop.retries, at)
+				}
+			}
+			if len(hop.retries) > 3 {
 				return
 			}
-			n++
-			op.hops = append(op.hops, c21Hop{url: h[:i], keep: h[i+1:] == "1", path: fmt.Sprintf("/r%d", n)})
+			op.hops = append(op.hops, hop)
 		}
 		if (op.kind == 'L' && (len(op.hops) != 1 || len(hcs) == 0)) || len(op.hops) > 8 {
 			return
@@ -386,7 +418,7 @@ func c21Decode(a [][]byte) (wt bool, mode byte, hcs []c21HCSpec, ops []c21Op, ok
 	if len(ops) == 0 || len(ops) > 40 {
 		return
 	}
-	return wt, mode, hcs, ops, true
+	return wt, mode, hook, hcs, ops, true
 }
 
 type c21Balanced struct {
@@ -442,21 +474,45 @@ func c21Bit(b bool) []byte {
 }
 
 func c21Ops(a [][]byte) *Case {
-	wt, mode, specs, ops, ok := c21Decode(a)
+	wt, mode, hookKind, specs, ops, ok := c21Decode(a)
 	if !ok {
 		return nil
 	}
 	c21ServerConfig()
 	nw := &c21Net{script: map[string]c21Reply{}}
+	next := map[string]string{} // path of a failing attempt -> URL the retry hook rewrites the request to
 	for _, op := range ops {
-		for j, h := range op.hops {
-			rp := c21Reply{status: 200, keep: h.keep}
-			if j+1 < len(op.hops) {
-				rp.status = []int{302, 307, 301, 308}[j%4]
-				rp.loc = op.hops[j+1].url + op.hops[j+1].path
+		for j := range op.hops {
+			atts := op.hops[j].attempts()
+			for t, at := range atts {
+				if t+1 < len(atts) {
+					nw.script[at.path] = c21Reply{fail: true}
+					next[at.path] = atts[t+1].url + atts[t+1].path
+					continue
+				}
+				rp := c21Reply{status: 200, keep: at.keep}
+				if j+1 < len(op.hops) {
+					rp.status = []int{302, 307, 301, 308}[j%4]
+					rp.loc = op.hops[j+1].url + op.hops[j+1].path
+				}
+				nw.script[at.path] = rp
 			}
-			nw.script[h.path] = rp
 		}
+	}
+	// the retry hooks: rewrite the request as scripted, otherwise do not retry
+	rewrite := func(req *fasthttp.Request) bool {
+		n, ok := next[string(req.URI().Path())]
+		if ok {
+			req.SetRequestURI(n)
+		}
+		return ok
+	}
+	var retryIf fasthttp.RetryIfFunc
+	var retryIfErr fasthttp.RetryIfErrFunc
+	if hookKind == 'F' {
+		retryIf = rewrite
+	} else {
+		retryIfErr = func(req *fasthttp.Request, attempts int, err error) (bool, bool) { return false, rewrite(req) }
 	}
 	var wto time.Duration
 	if wt {
@@ -480,13 +536,13 @@ func c21Ops(a [][]byte) *Case {
 		return err == nil
 	}
 	cl := &fasthttp.Client{Dial: nw.dial, TLSConfig: tcfg, ReadTimeout: 10 * time.Second, WriteTimeout: wto,
-		MaxIdleConnDuration: time.Hour, MaxIdemponentCallAttempts: 1, NoDefaultUserAgentHeader: true}
+		MaxIdleConnDuration: time.Hour, MaxIdemponentCallAttempts: 8, NoDefaultUserAgentHeader: true, RetryIf: retryIf, RetryIfErr: retryIfErr}
 	var hcs []*fasthttp.HostClient
 	var lbc []fasthttp.BalancingClient
 	picked := -1
 	for i, s := range specs {
 		hc := &fasthttp.HostClient{Addr: s.addr, IsTLS: s.tls, Dial: nw.dialFor(i), TLSConfig: tcfg, ReadTimeout: 10 * time.Second,
-			WriteTimeout: wto, MaxIdleConnDuration: time.Hour, MaxIdemponentCallAttempts: 1, NoDefaultUserAgentHeader: true}
+			WriteTimeout: wto, MaxIdleConnDuration: time.Hour, MaxIdemponentCallAttempts: 8, NoDefaultUserAgentHeader: true, RetryIf: retryIf, RetryIfErr: retryIfErr}
 		hcs = append(hcs, hc)
 		lbc = append(lbc, &c21Balanced{hc: hc, idx: i, picked: &picked})
 	}
@@ -551,8 +607,8 @@ func c21Ops(a [][]byte) *Case {
 		implParts = append(implParts, "-")
 	}
 	type sent struct {
-		op, hop int
-		conn    int
+		op, hop, att int
+		conn         int
 	}
 	var sents []sent
 	for i, op := range ops {
@@ -573,25 +629,39 @@ func c21Ops(a [][]byte) *Case {
 					return nil
 				}
 			}
-			if op.kind == 'C' {
-				margs = append(margs, B("C"), c21Bit(j == 0), scheme, host, c21Bit(h.keep),
-					c21Bit(cfgOk(c21OwnAddr(string(host), string(scheme) == "https"))))
-			} else {
-				margs = append(margs, B("H"), c21Bit(j == 0), N(hcIdx), scheme, c21Bit(h.keep))
-			}
-			ci := nw.carrier(h.path)
-			switch {
-			case stopped:
-				implParts = append(implParts, "S")
-			case ci >= 0:
-				implParts = append(implParts, fmt.Sprintf("W%d:%s:%d", ci, H([]byte(nw.conns[ci].addr)), map[bool]int{false: 0, true: 1}[nw.conns[ci].tls]))
-				sents = append(sents, sent{i, j, ci})
-			default:
-				stopped = true
-				if errors.Is(obs[i].err, fasthttp.ErrHostClientRedirectToDifferentScheme) {
-					implParts = append(implParts, "M")
+			atts := h.attempts()
+			for t, at := range atts {
+				fails := t+1 < len(atts)
+				keep := at.keep && !fails // a failed attempt closes its connection
+				if t == 0 {
+					if op.kind == 'C' {
+						margs = append(margs, B("C"), c21Bit(j == 0), scheme, host, c21Bit(keep),
+							c21Bit(cfgOk(c21OwnAddr(string(host), string(scheme) == "https"))))
+					} else {
+						margs = append(margs, B("H"), c21Bit(j == 0), N(hcIdx), scheme, c21Bit(keep))
+					}
 				} else {
-					implParts = append(implParts, "E")
+					// a further attempt of the same HostClient.Do call, with the URL the hook put on the request
+					var ru fasthttp.URI
+					if ru.Parse(nil, []byte(at.url+at.path)) != nil {
+						return nil
+					}
+					margs = append(margs, B("R"), append([]byte(nil), ru.Scheme()...), c21Bit(keep))
+				}
+				ci := nw.carrier(at.path)
+				switch {
+				case stopped:
+					implParts = append(implParts, "S")
+				case ci >= 0:
+					implParts = append(implParts, fmt.Sprintf("W%d:%s:%d", ci, H([]byte(nw.conns[ci].addr)), map[bool]int{false: 0, true: 1}[nw.conns[ci].tls]))
+					sents = append(sents, sent{i, j, t, ci})
+				default:
+					stopped = true
+					if errors.Is(obs[i].err, fasthttp.ErrHostClientRedirectToDifferentScheme) {
+						implParts = append(implParts, "M")
+					} else {
+						implParts = append(implParts, "E")
+					}
 				}
 			}
 		}
@@ -612,13 +682,16 @@ func c21Ops(a [][]byte) *Case {
 	return &Case{Lines: []string{Line("tlsroute", margs...)}, Impl: detail, Nontrivial: nontrivial, Tags: tags, Judge: func(r []string) Verdict {
 		// ---------------- property monitor
 		for _, s := range sents {
-			op, h := ops[s.op], ops[s.op].hops[s.hop]
+			op, hop := ops[s.op], ops[s.op].hops[s.hop]
+			h := hop.attempts()[s.att]
 			c := conns[s.conn]
 			scheme := c21Scheme(h.url)
 			own := ""
 			switch op.kind {
 			case 'C':
-				own = c21OwnAddr(c21URLHost(h.url), scheme == "https")
+				// Client.Do picks the HostClient once per call, from the URL the call started with; the attempts of
+				// that call stay with it (as with a caller-made HostClient, whose own host is its Addr)
+				own = c21OwnAddr(c21URLHost(hop.url), c21Scheme(hop.url) == "https")
 			case 'H':
 				own = specs[op.hc].addr
 			case 'L':
@@ -658,7 +731,7 @@ func c21Ops(a [][]byte) *Case {
 				if s.conn != ci {
 					continue
 				}
-				sc := c21Scheme(ops[s.op].hops[s.hop].url)
+				sc := c21Scheme(ops[s.op].hops[s.hop].attempts()[s.att].url)
 				if sc != "https" {
 					sc = "non-https"
 				}
@@ -714,12 +787,14 @@ func init() {
 			"and records per request the connection (dial address, TLS?, SNI) that carried it: Client.Do / Client.DoRedirects chains (1..4 hops, http<->https across hops), HostClient.Do / DoRedirects, LBClient.Do; " +
 			"URLs over schemes {http, https, HTTP, HTTPS, none, ftp, httpx} x hosts {a.test, A.test, a.test:443, a.test:80, a.test:8443, b.test, [::1], [::1]:443, [::1]:8080, 127.0.0.1} x keep-alive or close; both dialAddr paths (WriteTimeout 0 / >0); " +
 			"HostClient addresses incl. shapes no TLS server name can be derived from ([::1], ::1, 2001:db8::1, [2001:db8::1]) x TLS config {InsecureSkipVerify, verification with derived server name, verification with TLSConfig.ServerName}; " +
+			"18% of the hops have 1..2 first attempts that fail retriably (the peer reads the request and closes) with a RetryIfErr or RetryIf hook rewriting the URL - scheme and host - before the next attempt; " +
 			"30% of the calls are repeated 2..4 times in a row; the peer records the first bytes of every connection (TLS ClientHello or cleartext); " +
 			"addmissingport: AddMissingPort on generated addresses; non-trivial = at least two requests were written; distinct = distinct input",
 		Parallel: true,
 		Assumptions: []string{
 			"a connection counts as TLS when the first byte the server side receives is a TLS handshake record and the server handshake completes (InsecureSkipVerify client; certificate validation is crypto/tls' business)",
 			"the host a connection belongs to is the address Dial was called with; SNI, when sent, is compared with that host",
+			"the own host of a retried attempt is the one the call was routed for (Client.Do picks the HostClient once per call; a HostClient's own host is its Addr): a hook that rewrites the host does not re-route the call",
 			"whether a TLS server name can be derived from an address is decided with net.SplitHostPort (standard library) and handed to the model as the cfgOk flag of the HostClient",
 		},
 		Build: func(kind string, a [][]byte) *Case {
@@ -764,10 +839,22 @@ func init() {
 				if r.Chance(20) {
 					k = "0"
 				}
-				return sc + h + "," + k
+				out := sc + h + "," + k
+				return out
+			}
+			// a hop whose first attempt(s) fail retriably, the hook rewriting the URL (often to the other scheme)
+			withRetries := func(first string, sameHost string) string {
+				if !r.Chance(18) {
+					return first
+				}
+				out := first
+				for t := 1 + r.Intn(2); t > 0; t-- {
+					out += " ! " + hop(sameHost, true)
+				}
+				return out
 			}
 			for i := 0; i < n; i++ {
-				args := [][]byte{B(fmt.Sprintf("wt=%d %c", r.Intn(2), "IVVN"[r.Intn(4)]))}
+				args := [][]byte{B(fmt.Sprintf("wt=%d %c %c", r.Intn(2), "IVVN"[r.Intn(4)], "EEF"[r.Intn(3)]))}
 				nh := r.Intn(4)
 				var specs []string
 				for j := 0; j < nh; j++ {
@@ -787,7 +874,7 @@ func init() {
 					}
 					var hs []string
 					for k := 0; k < nhops; k++ {
-						hs = append(hs, hop(focus, k > 0))
+						hs = append(hs, withRetries(hop(focus, k > 0), focus))
 					}
 					s := kind + " "
 					if kind == "H" {
